@@ -98,7 +98,11 @@ func genomeFromRecs(id int, recs []geneRec) *genetics.Genome {
 	n2 := network.NewNNode(2, network.OutputNeuron)
 	genes := make([]*genetics.Gene, len(recs))
 	for i, r := range recs {
-		genes[i] = genetics.NewGene(r.mut, n1, n2, false, r.innov, r.mut)
+		w := r.mut
+		if r.innov%2 == 0 {
+			w = r.mut*0.5 + 1 // (the distance is defined over the mutation numbers; a weight need not mirror it in a genome built by hand)
+		}
+		genes[i] = genetics.NewGene(w, n1, n2, false, r.innov, r.mut)
 	}
 	return genetics.NewGenome(id, []*neat.Trait{neat.NewTrait()}, []*network.NNode{n1, n2}, genes)
 }
@@ -389,8 +393,14 @@ func c07Pair(c *Ctx, ga, gb *genetics.Genome, ra, rb []geneRec, opts *neat.Optio
 		if ga.Genes != nil && len(ga.Nodes) > 2 {
 			dup = independentCopy(ga, 3)
 		}
-		for _, v := range []res{{"linear(a,a)", ga.VerifCompatLinear(ga, opts)}, {"fast(a,a)", ga.VerifCompatFast(ga, opts)},
-			{"linear(a,dup)", ga.VerifCompatLinear(dup, opts)}, {"fast(a,dup)", ga.VerifCompatFast(dup, opts)}} {
+		checks := []res{{"linear(a,a)", ga.VerifCompatLinear(ga, opts)}, {"fast(a,a)", ga.VerifCompatFast(ga, opts)},
+			{"linear(a,dup)", ga.VerifCompatLinear(dup, opts)}, {"fast(a,dup)", ga.VerifCompatFast(dup, opts)}}
+		// ... and against the duplicate the library itself makes of it (the statement speaks of that one)
+		if own, derr := ga.VerifDuplicate(4); derr == nil && own != nil {
+			checks = append(checks, res{"linear(a, a's own duplicate)", ga.VerifCompatLinear(own, opts)}, res{"fast(a's own duplicate, a)", own.VerifCompatFast(ga, opts)})
+			c.Count("pairs.with_the_librarys_duplicate", 1)
+		}
+		for _, v := range checks {
 			if v.v != 0 {
 				c.Violate("self-distance", detail(), "%s = %v, expected 0", v.name, v.v)
 				return
